@@ -149,6 +149,42 @@ def first_load(gtext, cfg, memo, text, want_nodes):
     return {"load": lo, "parse": pa, "same": nodes == want_nodes, "hits": getattr(got[0], "cache_hits", 0) if got else 0}
 
 
+def uniform_at(nodes, comments, skipws, ws):
+    """the dumped parser model is in the class for which C19 is *proved* on the mirror (Peg.UniformAt / Peg.uniformAtB):
+    no comment model, no eolterm, and every ws / skipws rule modifier restates the whitespace context (skipws, ws)
+    of the meta-model.  (Recomputed here from the statement of the class; the Lean recogniser must agree.)"""
+    if comments is not None:
+        return False
+    for nd in nodes:
+        if nd.get("ws") is not None and nd["ws"] != ws:
+            return False
+        if nd.get("skipws") is not None and bool(nd["skipws"]) != bool(skipws):
+            return False
+        if nd.get("eol"):
+            return False
+    return True
+
+
+def restate_modifiers(g, cfg, rng):
+    """turn the rule modifiers of grammar g into modifiers that RESTATE the configuration of the meta-model (the class
+    of parser models for which memoization is proved transparent): every rule with a modifier, and one or two more
+    rules, get [skipws] / [noskipws] / [ws=".."] with exactly the values of cfg (textX defaults where cfg is silent).
+    The ws value is written with literal tab / newline characters: textX normalises a value with backslash escapes to
+    the order \\n \\r \\t space, which is another string than the default "\\t\\n\\r " (Arpeggio restores / compares ws
+    as strings, and so does the class UniformAt)."""
+    sk = cfg.get("skipws", True)
+    ws = cfg.get("ws", "\t\n\r ")
+    rules = g["rules"]
+    extra = set(rng.sample(list(range(len(rules))), min(len(rules), rng.randint(1, 2))))
+    for i, r in enumerate(rules):
+        if r.get("params") or i in extra:
+            ch = rng.choice(["skipws", "ws", "both"])
+            r["params"] = {k: v for k, v in (("skipws", sk), ("ws", ws)) if ch in (k, "both")}
+            if "ws" in r["params"]:
+                r["params"]["wsq"] = '"'
+    return g
+
+
 def _drop_unreachable(gtext):
     """the grammar text (one rule per line, as rendered by gen_grammar) without the rules that can be reached neither
     from the first rule nor from the Comment rule"""
@@ -196,7 +232,13 @@ class Prop(Check):
     ID = "C19"
     LEAN_MODULE = "TextxVerif.Props.C19"
     THEOREMS = ["Peg.C19_posdet", "Peg.C19_partial", "Peg.C19_partial_agree", "Peg.C19_partial_accept",
-                "Peg.C19_full_false", "Peg.parse_le", "Peg.plain_sim", "Peg.memo_sim"]
+                "Peg.C19_full_false", "Peg.parse_le", "Peg.plain_sim", "Peg.memo_sim",
+                # round D19: constant whitespace context (modifiers restating it), converse termination, verdicts
+                "Peg.C19_at", "Peg.C19_at_diverges", "Peg.C19_partial_at", "Peg.C19_converse_at",
+                "Peg.C19_partial_agree_at", "Peg.C19_partial_accept_at", "Peg.C19_posdet_at",
+                "Peg.C19_statement_false", "Tx.C19_load_at", "Peg.uniformAtB_sound",
+                "Peg.plain_sim_at", "Peg.memo_sim_at", "Peg.memo_rev", "Peg.memo_fin_plain", "Peg.bodyNode_ev",
+                "Peg.parseLim_ev"]
     DRIVER = "Drivers/Peg.lean"
     QUICK_CASES = 250
     CASE_TIMEOUT = 20
@@ -215,6 +257,17 @@ class Prop(Check):
     def gen(self, rng, n, tier):
         for i in range(n):
             r = rng.fork(i)
+            if i % 8 == 5:
+                # the class of the theorem C19_at: no Comment rule, no eolterm, modifiers that restate the configuration
+                # of the meta-model -- there memoization must be transparent without exception (no known finding applies)
+                r2 = r.fork(1)
+                gg = G.GrammarGen(r2, links=False, comment_p=0.0, eolterm=False, flavours=True)
+                g = gg.grammar()
+                cfg = r2.choice(CFGS)
+                g = restate_modifiers(g, cfg, r2)
+                texts = r2.shuffle(G.sentences(g, r2, 3, 2))
+                yield {"grammar": G.render_grammar(g), "cfg": cfg, "texts": texts, "restating": True}
+                continue
             gg = G.GrammarGen(r, links=False, composite_comment=True, flavours=True)
             g = gg.grammar()
             cfg = r.choice(CFGS)
@@ -238,6 +291,8 @@ class Prop(Check):
         res["nodes"], res["top"], res["comments"] = nodes, top, comments
         res["same_model"] = (nodes == nodes1 and top == top1 and comments == comments1)
         res["skipws"], res["ws"] = bool(p0.skipws), p0.ws
+        res["uniform_at"] = uniform_at(nodes, comments, res["skipws"], res["ws"])
+        res["modifiers"] = sum(1 for nd in nodes if nd.get("ws") is not None or nd.get("skipws") is not None)
         for t in case["texts"]:
             d = {"text": t}
             d["load0"], d["load1"] = memo_pair(lambda memo: load(mm1 if memo else mm0, t))
@@ -277,6 +332,7 @@ class Prop(Check):
             fuel = min(20000, 60 + 8 * (len(d["text"]) + 2) * (len(obs["nodes"]) + 2))
             for memo in (False, True):
                 reqs.append({"input": d["text"], "toks": d["toks"], "memo": memo, "fuel": fuel})
+        reqs.append({"op": "uniformAt"})
         return {"op": "batch", "base": base, "reqs": reqs}
 
     @staticmethod
@@ -294,7 +350,17 @@ class Prop(Check):
             return f"model rejected the request: {out}"
         if not obs["same_model"]:
             return "memoization changes the compiled parser model"
+        ua = out["outs"][-1]
+        if ua != {"uniformAt": obs.get("uniform_at")}:
+            return f"class of the theorem C19_at: Lean recogniser {ua} vs statement of the class {obs.get('uniform_at')}"
+        if case.get("restating") and not obs.get("uniform_at"):
+            return "a grammar generated with restating modifiers compiles to a parser model outside the class UniformAt"
         for k, d in enumerate(obs["texts"]):
+            if obs.get("uniform_at"):
+                # C19_partial_accept_at on the mirror: plain run finished => the memoizing run gives the same outcome
+                m0, m1 = out["outs"][2 * k], out["outs"][2 * k + 1]
+                if m0.get("err") != "fuel" and m0 != m1:
+                    return f"text {d['text']!r}: mirror in the proved class differs: {str(m0)[:200]} vs {str(m1)[:200]}"
             for j, key in enumerate(("parse0", "parse1")):
                 m = out["outs"][2 * k + j]
                 if not self._same(d[key], m):
@@ -324,6 +390,10 @@ class Prop(Check):
 
     def classify(self, case, obs, failure):
         if "texts" not in obs:
+            return None
+        if obs.get("uniform_at"):
+            # proved on the mirror (C19_at): within this class memoization is transparent; a whitespace-context clash
+            # needs a modifier that changes the context.  Nothing excuses a difference here.
             return None
         bad = [d for d in obs["texts"] if _differs(d)]
         # the known finding does not depend on the history of the meta-model: the first parse of a fresh pair shows
@@ -355,6 +425,10 @@ class Prop(Check):
                 "first_parses_tied_to_mirror": sum(1 for o in obs for d in o.get("texts", []) for j in (0, 1)
                                                    if d[f"first{j}"]["same"] and d[f"first{j}"]["parse"] is not None),
                 "grammars_with_suppressed_rule_refs": sum(1 for c in cases if __import__("re").search(r"\b[A-Z]\w*-", c["grammar"])),
+                "models_in_proved_class": sum(1 for o in obs if o.get("uniform_at")),
+                "models_in_proved_class_with_modifiers": sum(1 for o in obs if o.get("uniform_at") and o.get("modifiers")),
+                "texts_in_proved_class_with_modifiers_and_cache_hits": sum(
+                    1 for o in obs if o.get("uniform_at") and o.get("modifiers") for d in o.get("texts", []) if d.get("hits", 0) > 0),
                 "grammars_with_modifiers": sum(1 for c in cases if "[" in c["grammar"].split(":")[0] or "skipws" in c["grammar"] or "ws=" in c["grammar"])}
 
     def shrink(self, case):
